@@ -29,7 +29,7 @@ ASSUMPTIONS = [
     'operations on the same message are issued one after the other (one greenlet chain per message); operations on different messages overlap arbitrarily',
     'set_recipients_delivered is handed a list sorted highest-first, one marking round per message (for which the shipped and the d5/d6-fixed code write the same bytes; the Queue\'s set argument and multi-round marking are C15/C03 matters)',
     'each message is written once in a history (its id is not drawn again), updates address a written, not yet removed message',
-    'aio_write writes the whole piece (no short writes); pickle round-trips (the effect-exact runs use the number codec nc_* in its place)',
+    'aio_write outcomes: the whole piece, a short write ((n+1)//2 bytes, once or repeatedly, by a rule on temp name and offset), or a reported error (EFBIG/ENOSPC); pickle round-trips (the effect-exact runs use the number codec nc_* in its place)',
     'second fault mode "abort with unwinding": an exception (GreenletExit, or IOError(ENOSPC) reported by the aio_write callback) is raised in place of one file-system effect (or, overlapped histories, in every greenlet at its current effect), the code\'s except/finally clauses run with real effects, then the process counts as dead',
     'C04_queue_resumes (the fresh Queue re-schedules every recovered id) is left to the queue model (C12/C01)',
 ]
@@ -110,9 +110,10 @@ def model_recover(v):
 class Progress(object):
     """which operations of which message had returned / started at a crash point"""
 
-    def __init__(self, threads):
+    def __init__(self, threads, results=None):
         self.threads = threads
         self.spans = [[None] * len(t) for t in threads]     # (first effect index, index after last)
+        self.results = results                               # what the operations returned (uncrashed run)
 
     def judge(self, ctx, k, rec, case, fail):
         load, gets = rec
@@ -126,10 +127,13 @@ class Progress(object):
             inflight = None
             acked = False
             removing = False
-            for o, span in zip(t, self.spans[j]):
+            for oi, (o, span) in enumerate(zip(t, self.spans[j])):
                 if span is None or span[0] >= k:
                     break                       # not started (no effect of it carried out)
                 if span[1] is not None and span[1] <= k:
+                    res = self.results[j][oi] if self.results is not None and oi < len(self.results[j]) else None
+                    if res is not None and res[0] not in ('id', 'unit', 'att', 'got', 'load'):
+                        continue                # the operation raised (a reported write error, a missing message): nothing applied, nothing acknowledged
                     ref.step(o)                 # returned
                     if o[0] == 'write':
                         acked = True
@@ -140,7 +144,7 @@ class Progress(object):
                     if o[0] == 'remove':
                         removing = True
                     break
-            if not acked or removing:
+            if not acked or removing or id not in ref.m:
                 continue
             before = ref.m[id]
             allowed = [tuple([before[0], tuple(before[1]), before[2], before[4], before[3]])]
@@ -170,7 +174,7 @@ def flat_cleanups(v):
     return [x for th in v for x in th]
 
 
-def run_sequential(ctx, n_hist, codec, chunk, exception_runs):
+def run_sequential(ctx, n_hist, codec, chunk, exception_runs, wrule=None):
     rng = ctx.rng
     fail = c15.fail
     jobs = []
@@ -182,12 +186,14 @@ def run_sequential(ctx, n_hist, codec, chunk, exception_runs):
         jobs.append((threads, order, junk))
     points = 0
     for threads, order, junk in jobs:
-        cfg = dict(codec=codec, chunk=chunk)
+        cfg = dict(codec=codec, chunk=chunk, wrule=wrule)
+        mchunk = chunk if wrule is None else [chunk] + list(wrule)
         ad = Adapter('disk', cfg)
         try:
             disk = ad.disk
             disk.install(junk)
-            prog = Progress(threads)
+            results = [[] for _ in threads]
+            prog = Progress(threads, results)
             recs = []
             eff_thread = []
             cur = [None]
@@ -203,7 +209,6 @@ def run_sequential(ctx, n_hist, codec, chunk, exception_runs):
                     eff_thread.append(cur[0])
                 orig_effect(desc)
             disk.effect = effect
-            results = [[] for _ in threads]
             pos = [0] * len(threads)
             for j, o in order:
                 cur[0] = j
@@ -214,7 +219,10 @@ def run_sequential(ctx, n_hist, codec, chunk, exception_runs):
             hook()                                   # crash after the last effect
             disk.effect = orig_effect
             n = len(disk.log)
-            case = dict(stream='sequential', codec=codec, chunk=chunk, threads=threads,
+            if wrule is not None:
+                ctx.count('write-faults:short', sum(1 for f in disk.write_faults if f[0] == 'short'))
+                ctx.count('write-faults:error', sum(1 for f in disk.write_faults if f[0] == 'error'))
+            case = dict(stream='sequential', codec=codec, chunk=chunk, wrule=wrule, threads=threads,
                         order=[(j, o[0]) for j, o in order], junk=sorted(junk), junk_index=JUNK.index(junk))
             # ---- oracle at every crash point
             for k in range(n + 1):
@@ -222,18 +230,24 @@ def run_sequential(ctx, n_hist, codec, chunk, exception_runs):
                 ctx.evaluated(('seq', codec, tuple(map(tuple, threads)), tuple(j for j, _ in order), k),
                               nontrivial=0 < k < n)
                 points += 1
-            ctx.count('histories:sequential:%s' % ('codec' if codec else 'pickle'))
+            ctx.count('histories:sequential:%s%s' % ('codec' if codec else 'pickle', ':write-faults' if wrule else ''))
             ctx.count('crash-points:sequential', n + 1)
             # every thread's results against the reference (no crash)
+            errors_injected = any(f[0] == 'error' for f in disk.write_faults)
             for j, t in enumerate(threads):
                 ref = Ref()
-                want = [ref.step(o) for o in t]
+                want = []
+                for o, got in zip(t, results[j]):
+                    if errors_injected and got == ('exc', 'OSError') and o[0] in ('write', 'setts', 'incr', 'deliv'):
+                        want.append(got)        # a reported write error: the operation is refused, nothing applied
+                    else:
+                        want.append(ref.step(o))
                 if results[j] != want:
                     fail(ctx, 'c04:uncrashed-results', case, 'thread %d returned %r, reference %r' % (j, results[j], want))
             if not codec:
                 continue
             # ---- correspondence: effect log and recover at every crash point
-            mo = ctx.model.call('c04_crash_all', [[[enc_op(o) for o in t] for t in threads], eff_thread, IDS, chunk, enc_init(junk)])
+            mo = ctx.model.call('c04_crash_all', [[[enc_op(o) for o in t] for t in threads], eff_thread, IDS, mchunk, enc_init(junk)])
             mlog = [(x[0], x[1]) for x in mo[0]]
             ilog = [(j, canon_eff(d)) for j, d in zip(eff_thread, disk.log)]
             corr = True          # model and code agree so far; if not, the oracle-only search goes on
@@ -248,6 +262,9 @@ def run_sequential(ctx, n_hist, codec, chunk, exception_runs):
                 if corr and recs[k] != mrecs[k]:
                     ctx.mismatch('recover', dict(case, crash_point=k), recs[k], mrecs[k])
                     break
+            mres = [[dec_res(x) for x in t[0]] for t in mo[2]]
+            if corr and mres != results:
+                ctx.mismatch('results', case, results, mres)
             if len(ctx.samples) < 3:
                 ctx.sample(dict(threads=threads, effects=n, log_head=[str(x) for x in ilog[:8]]))
             # ---- (b) the same crash points by raising at the k-th effect of a re-run
@@ -441,6 +458,11 @@ def run(ctx):
         p2 = run_overlapped(ctx, 12 if q else 300, 9, abort_every=2 if q else 3)
     with sf.FdGuard('c04 real pickle'):
         p3 = run_sequential(ctx, 6 if q else 120, False, 64, False)
+    with sf.FdGuard('c04 short writes'):
+        # every third (temp, offset) stores only half of what was asked; then also reported errors
+        p4 = run_sequential(ctx, 6 if q else 120, True, 9, True, wrule=(3, 1, 0, 0))
+        p4 += run_sequential(ctx, 5 if q else 100, True, 7, False, wrule=(2, 0, 11, 4))
+        p4 += run_sequential(ctx, 3 if q else 60, False, 16, False, wrule=(2, 1, 0, 0))
     ctx.note('file descriptors: at most %d open at a time during the run (every stream is checked for leaks; '
              'descriptors an interrupted operation left open are closed by the harness after judging)' % sf.FdGuard.peak)
     stray = 0
@@ -453,9 +475,9 @@ def run(ctx):
         'aio_write calls, optional junk in the directories (stray temp, orphan env, orphan meta); a crash point '
         '= number of file-system effects carried out (0..n, EVERY one of them); sequential histories: %d crash '
         'points incl. re-runs that raise at the k-th effect; overlapped (gated greenlets, random effect-level '
-        'schedules): %d crash points; real pickle (oracle only): %d crash points.  At each point a fresh DiskStorage '
+        'schedules): %d crash points; real pickle (oracle only): %d crash points; with short writes (an aio_write stores (n+1)//2 of the n bytes asked for, chosen by temp name and offset) and reported write errors (EFBIG/ENOSPC): %d crash points.  At each point a fresh DiskStorage '
         'does load() and get() of every id; compared with the model\'s recover and judged by the statement.  '
-        'non-trivial = a crash strictly inside the history' % (p1, p2, p3))
+        'non-trivial = a crash strictly inside the history' % (p1, p2, p3, p4))
     ctx.extra['exhaustive'] = True
     ctx.extra['exhaustive_bound'] = 'every crash point (0..n effects) of every generated history'
     ctx.extra['trusted_base'] = [
@@ -480,7 +502,7 @@ def replay(ctx, case):
     k = c['crash_point']
     abort = c.get('abort')
     if c['stream'] == 'sequential':
-        ad = Adapter('disk', dict(codec=c.get('codec', True), chunk=c['chunk']))
+        ad = Adapter('disk', dict(codec=c.get('codec', True), chunk=c['chunk'], wrule=tuple(c['wrule']) if c.get('wrule') else None))
         try:
             ad.disk.install(junk)
             if abort:
@@ -501,6 +523,8 @@ def replay(ctx, case):
             ad.disk.crash_at = None
             for d in ad.disk.log[max(0, k - 4):]:
                 print('   effect', d[:3])
+            for f in ad.disk.write_faults:
+                print('   aio_write outcome', f)
             print('fresh DiskStorage: load/get ->', recover(ad.disk, IDS))
         finally:
             ad.close()
